@@ -137,7 +137,7 @@ theorem sortIndicesPy_perm (q : QVec) (h1 : q.rows.length = q.cols.length) (h2 :
   simp only [sortIndicesPy, QVec.triples]
   have hr : (List.zipWith min q.rows q.cols).length = q.rows.length := by simp [h1]
   have hc : (List.zipWith max q.rows q.cols).length = q.rows.length := by simp [h1]
-  have hperm := argsortBy_perm (fun (a b : Nat × Nat) => decide (a.2 < b.2) || (decide (a.2 = b.2) && decide (a.1 ≤ b.1)))
+  have hperm := argsortBy_perm (fun (a b : Nat × Nat) => decide (a.1 < b.1) || (decide (a.1 = b.1) && decide (a.2 ≤ b.2)))
     ((List.zipWith min q.rows q.cols).zip (List.zipWith max q.rows q.cols))
   have hlen : ((List.zipWith min q.rows q.cols).zip (List.zipWith max q.rows q.cols)).length = q.rows.length := by simp [h1]
   rw [hlen] at hperm
